@@ -793,7 +793,13 @@ pub fn c10(out: &mut Out, thorough: bool) {
                         flags.push("#midgroup-edit");
                     }
                 }
-                if op.as_bytes()[0] == b'x' && op.len() > 5 {
+                // `remove_move` ignores the promotion-piece field (finding F11): any call aimed at a
+                // promotion destination - with a piece or with none - drops all four choices
+                let aims_at_promotion = op.as_bytes()[0] == b'x' && {
+                    let mv = parse_mv(&op[1..]);
+                    op.len() > 5 || legal.iter().any(|l| l.source == mv.source && l.dest == mv.dest && l.piece.is_some())
+                };
+                if aims_at_promotion {
                     if !allow_known {
                         continue;
                     }
